@@ -1,6 +1,6 @@
 from anytree import Walker, WalkError
 from impl_c04 import build_any
-from implutil import lbls
+from impl_c04 import LABEL
 
 
 def run_case(c):
@@ -14,4 +14,4 @@ def run_case(c):
         return {"err": "WalkError"}
     if not isinstance(up, tuple) or not isinstance(down, tuple):
         return {"crash": "not tuples"}
-    return {"up": lbls(up), "common": common.lbl, "down": lbls(down)}
+    return {"up": [x.lbl for x in up], "common": common.lbl, "down": [x.lbl for x in down]}
